@@ -109,6 +109,11 @@ def _is_exc(a, b):
 def do_op(F, op, designs, frs, ns, env):
     """perform one operation on module instance F; returns a snapshot (or an exception object)"""
     kind = op[0]
+    if kind == "edit":
+        # the caller replaces a column of one of its frames in place (new symbols)
+        b, ver = op[1], op[2]
+        frs[b]["x"] = env.column(f"{'abc'[b]}_x_v{ver}", len(frs[b]))
+        return {"edited": (b, ver)}
     try:
         with env.running():
             if kind == "cfg":
@@ -178,6 +183,8 @@ def harness(env, case):
     designs, results = [], []  # results: (op, op_chain for the reference, snapshot)
     history = []
     cur_mode = mode
+    versions = [0, 0, 0]
+    edits = []  # (position in history, op)
     for step in range(K):
         if forced is not None:
             if step >= len(forced):
@@ -190,6 +197,7 @@ def harness(env, case):
             options += [("evalc", d, b) for d in range(len(designs)) for b in ((0, 2) if harness.tier == "quick" else (0, 1, 2))]
             options += [("evalg", d, b) for d in range(len(designs)) if designs[d].group is not None for b in (0, 2)]
             options += [("cfg", m) for m in range(len(MODES) if harness.tier != "quick" else 2) if m != cur_mode]
+            options += [("edit", b, versions[b] + 1) for b in ((2,) if harness.tier == "quick" else (0, 2))]
             if step == 1:
                 if second >= len(options):
                     raise symx.PathEnd()
@@ -202,18 +210,23 @@ def harness(env, case):
         if op[0] == "cfg":
             cur_mode = op[1]
             continue
+        if op[0] == "edit":
+            versions[op[1]] = op[2]
+            edits.append((len(history) - 1, op))
+            frame_snaps[op[1]] = snap_frame(frs[op[1]])
+            continue
         # the chain that defines this result on fresh modules: (config as now) + build [+ eval]
+        here = len(history) - 1
         if op[0] == "build":
-            chain = [op]
-            build_of = len(designs) - 1
+            chain = [e for pos, e in edits if pos < here] + [op]
         else:
-            bop = next(r[0] for r in results if r[0][0] == "build" and r[3] == op[1])
-            chain = [bop, (op[0], 0, op[2])]
+            bpos, bop = next((r[4], r[0]) for r in results if r[0][0] == "build" and r[3] == op[1])
+            chain = [e for pos, e in edits if pos < bpos] + [bop] + [e for pos, e in edits if bpos < pos < here] + [(op[0], 0, op[2])]
         ref = reference_cached(chain, cur_mode, sym, env)
         same_snap(env, snap, ref, "result == the same operation on freshly imported modules", info)
-        results.append((op, chain, snap, len(designs) - 1 if op[0] == "build" else None))
+        results.append((op, chain, snap, len(designs) - 1 if op[0] == "build" else None, here))
         # nothing observed earlier may have changed
-        for (op0, chain0, snap0, di) in results[:-1]:
+        for (op0, chain0, snap0, di, _pos) in results[:-1]:
             if op0[0] == "build":
                 now = snap_design(designs[di])
                 same_snap(env, now, snap0, "an existing design is unchanged by later operations", info)
